@@ -1624,6 +1624,8 @@ class Interp:
                 return self.call_method(x, "__len__", [])
             if is_sym(x):
                 return sym.length(x)
+            if x is None or isinstance(x, (int, float, bool)):
+                raise Raised(ExcVal("TypeError", args=(f"object of type '{type(x).__name__}' has no len()",)))     # the PROGRAM's error
             return len(x)
         if f is repr or f is str:
             x = args[0] if args else ""
@@ -1758,7 +1760,10 @@ class Interp:
                 keyed = [(self.call(key, [x], {}), i, x) for i, x in enumerate(obj)]
                 if any(is_sym(k) or (isinstance(k, tuple) and any(is_sym(z) for z in k)) for k, _, _ in keyed):
                     raise Unsupported("sort with symbolic keys")
-                keyed.sort(key=lambda t: (t[0], t[1]))
+                try:
+                    keyed.sort(key=lambda t: (t[0], t[1]))
+                except TypeError as ex:
+                    raise Raised(ExcVal("TypeError", args=(str(ex),))) from None      # the program compares incomparable keys
                 obj[:] = [x for _, _, x in keyed]
                 if kwargs.get("reverse"):
                     obj.reverse()
@@ -1924,9 +1929,9 @@ class Interp:
             return int.from_bytes(args[0], order)
         if d == "struct.unpack":
             if any(is_sym(a) for a in args):
-                if args[0] in ("<H", ">H", "<I", ">I", "<B", "B"):
+                if args[0] in ("<H", ">H", "<I", ">I", "<B", "B") and _known_len(args[1]) == _struct.calcsize(args[0]):
                     return (_from_bytes(args[1], "little" if args[0][0] in "<B" else "big"),)
-                return sym.op("unpack", *args)
+                return (sym.op("unpack", *args),)      # operand of unproven length: struct.error is possible
             return _struct.unpack(*args)
         if d == "struct.calcsize":
             return _struct.calcsize(*args)
@@ -2192,6 +2197,20 @@ def _walk_local(fn):
         if isinstance(n, FUNC_TYPES + (ast.ClassDef,)):
             continue
         stack.extend(ast.iter_child_nodes(n))
+
+
+def _known_len(x):
+    """length of a symbolic bytes value when its form fixes it: x[:k].ljust(w, pad) with k <= w has w bytes"""
+    if is_sym(x) and x[:2] == ("op", "ljustb") and len(x) == 5 and isinstance(x[3], int):
+        y = x[2]
+        if is_sym(y) and y[:2] == ("op", "slice") and y[3] is None and isinstance(y[4], int) and 0 <= y[4] <= x[3] and y[5] is None:
+            return x[3]
+    if is_sym(x) and x[:2] == ("op", "pack") and isinstance(x[2], str):
+        try:
+            return _struct.calcsize(x[2])
+        except Exception:
+            return None
+    return None
 
 
 def _from_bytes(x, order):
